@@ -134,6 +134,21 @@ theorem mutated_residue_has_target_atoms_mcis (ff : FF) (rn : String) (mu mods :
     mutated_residue_has_target_atoms ff rn mu mods ref href m found M common h hc hne hB hmark
   ⟨name, b0, h1, h2, h3, h4⟩
 
+/-! ## the same modification requested twice (finding F-C19-4) -/
+
+/-- **witness**: unlike equal mutation targets (`mutate_twice_same_target_ok`), equal modification
+requests on one residue are NOT one request: `-nter N-ter -modify A-nter:N-ter`, or `-nter NH2-ter
+-nt` (`nt_means_neutral_termini`), leave `modification = [m, m]` on the terminal residue and
+`_get_reference_residue` patches `m` in twice — the reference, hence the repaired residue, has the
+added atom twice under one name.  `NamesDistinct` (hypothesis of
+`mutated_residue_has_target_atoms`) fails for such a reference. -/
+theorem duplicate_modification_doubles_atoms :
+    (match getReference ffEx "GLY" none (some ["N-ter", "N-ter"]) with
+     | .ok b => b.nodes.map (·.name)
+     | .error _ => []) = ["N", "CA", "C", "HN2", "HN2"] ∧
+    ¬ NamesDistinct (match getReference ffEx "GLY" none (some ["N-ter", "N-ter"]) with | .ok b => b | .error _ => default) := by
+  decide
+
 /-! ## other residues -/
 
 /-- **Atoms of other residues are untouched** by the repair of a residue: every atom outside the
